@@ -13,6 +13,8 @@ def run(tier, seed):
     import contracts.linkc as LK
     deductive(rep, "C20", [HP.QL], "contracts.helpers")
     deductive(rep, "C20", LK.FUNCS, "contracts.linkc")
+    import contracts.rxrules as RXR
+    deductive(rep, "C20", [RXR.QE, RXR.QH], "contracts.rxrules")
     gen_universe(rep, "vf.oracles2:c20_cost", "vf.oracles2:gen_c20", tier, "MarkdownIt.render", "cost contract: calls(render(x)) <= 12*maxNesting*len(x) and cost(2L) <= 2.6*cost(L) (cost = python-level calls into markdown_it, sys.setprofile)",
                  ["commonmark", "js-default"], "38 pathological families at L, 2L, 4L; distinct = distinct (family, calls per character)", "pathological families", timeout_s=300)
     rep.explanation = ("Mixed. Deductive: the guards - rule calls in ParserBlock.tokenize, ParserInline.tokenize and skipToken happen only under level < maxNesting (GUARD at the dispatch call sites); skipToken always advances, "
